@@ -3,6 +3,7 @@
    entries; flush_events = handle_connection_events), specification and monitor: LL/LLSpecC29.v. *)
 From BT Require Import Base.ListX LL.LLModel LL.LLSpec LL.LLSpecC29 LL.LLProofsC29.
 From BT Require gen.GenLL.
+From BT Require Ring.RingModel Ring.RingSpec Ring.RingProofs.
 Import ListNotations.
 Local Open Scope N_scope.
 
@@ -89,6 +90,30 @@ Proof. exact monitor29_rejects_established_and_timeout. Qed.
 Example C29_monitor_rejects_missing_requested :
   fst (mrun29 cfg29 (minit29 cfg29) [(connect29, OItems [IAa 1 2; ICe 1 2 3 4])]) = Bad 6.
 Proof. exact monitor29_rejects_missing_requested. Qed.
+
+(* ---- the ring itself (bluetoe/utility/ring.hpp, property C30), instantiated with connection_callbacks<>'s capacity:
+   under ANY interleaving of try_push / try_pop - in particular the sequential use the link layer makes of it - what is
+   popped is a prefix of what was pushed successfully, in order, and a try_push fails only while max_events elements are
+   pending. This is what the model's [push_event] / [flush_events] (a list with a bound) abstracts. *)
+Theorem C29_ring_delivers_pushed_events_in_order :
+  forall (ops : list RingModel.op),
+    let S := N.to_nat GenLL.max_events in
+    exists q, RingSpec.pushed (RingModel.run (RingModel.init S) ops) = RingSpec.popped (RingModel.run (RingModel.init S) ops) ++ q
+              /\ RingSpec.pending (RingModel.run (RingModel.init S) ops) = q /\ (length q <= S)%nat.
+Proof. exact (RingProofs.popped_prefix_of_pushed (N.to_nat GenLL.max_events)). Qed.
+Print Assumptions C29_ring_delivers_pushed_events_in_order.
+Theorem C29_ring_refuses_only_when_full :
+  forall (ops : list RingModel.op) tr1 v x mid v' a tr2,
+    let S := N.to_nat GenLL.max_events in
+    RingModel.run (RingModel.init S) ops
+      = tr1 ++ (RingModel.OpP v, RingModel.Out (RingModel.LdR x) RingModel.RNone) :: mid ++ (RingModel.OpP v', RingModel.Out a RingModel.RFail) :: tr2 ->
+    RingSpec.consumer_only mid ->
+    length (RingSpec.pending tr1) = S.
+Proof.
+  intros ops tr1 v x mid v' a tr2 S H C.
+  exact (proj1 (RingProofs.push_fails_only_when_full S ops tr1 v x mid v' a tr2 H C)).
+Qed.
+Print Assumptions C29_ring_refuses_only_when_full.
 
 (* ---- the constant read from connection_callbacks.hpp on every run *)
 Example C29_ring_size : GenLL.max_events = 4.
